@@ -27,6 +27,10 @@ RULE = ("histories = one reporter dictionary (model / agent / agent-type reporte
         "tuples of tuples holding lists, dict of arrays, set, deque, a dataclass-like object, 2-D and structured arrays, a view of an "
         "array the model keeps writing to - mutated in place after the collect, and 4 SCALE cases (255/256/257/1025 agents, up to 257 "
         "collects, tables of 256..1025 rows, values beyond 2^53 / 2^62 / 2^63; thorough and the enumerator after a break go to 4097); "
+        "and 70 USER-CODE histories (oracle-only): reporters of every form (property through an attribute name, function, bound method "
+        "of the model, [function, args]) at model / agent / agent-type level that raise StopIteration (bare next()), IndexError, KeyError, "
+        "AttributeError, TypeError, GeneratorExit or a custom exception for the first / a middle / the last / all agents in some states, "
+        "or re-enter the API during collect (add_table_row, removing / creating an agent); the caller catches and carries on; "
         "a second DataCollector built from the same dictionaries collects "
         "at the end; non-trivial = at least 2 collects and one reporter; distinct = by SHA1 of the history")
 TRUSTED_BASE = [
